@@ -825,6 +825,21 @@ fn main() {
 
 fn handle(st: &mut St, w: &[&str]) -> String {
     let out = match w {
+        ["ttype"] => {
+            // every byte `TransformType::try_from` lets through (the Ok value is never inspected:
+            // for a byte that is not a variant it would not be a valid enum value)
+            let acc: Vec<String> = (0u16..256)
+                .filter(|v| matches!(jxl_vardct::TransformType::try_from(*v as u8), Ok(_)))
+                .map(|v| v.to_string())
+                .collect();
+            Some(format!("ttype accepted={}", acc.join(",")))
+        }
+        ["ttype1", v] => v.parse::<u8>().ok().map(|v| {
+            match jxl_vardct::TransformType::try_from(v) {
+                Ok(_) => "ttype1 ok".to_string(),
+                Err(_) => "ttype1 err".to_string(),
+            }
+        }),
         ["cpu"] => {
             let f: Vec<String> = h7::squeeze::cpu_features()
                 .into_iter()
